@@ -6,6 +6,7 @@ import (
 	"sort"
 	"strings"
 
+	"github.com/evanw/esbuild/pkg/api"
 	. "github.com/evanw/esbuild/verifharness/hlib"
 )
 
@@ -207,6 +208,38 @@ var minifyBaits = []string{
 	"var t = this == null ? void 0 : this.x",
 }
 
+// programs in OLD syntax whose minified / generated form could use a NEWER feature
+var oldSyntaxBaits = []struct{ src, loader string }{
+	{"export function f(x, y) { return x != null ? x.a.b : undefined }", ""},
+	{"export function f(x) { return x == null ? void 0 : x.a[0](1) }", ""},
+	{"export function f(x, y) { if (x === null || x === undefined) return undefined; return x.title }", ""},
+	{"export function f(x, y) { return x != null ? x : y }", ""},
+	{"export function f(x, y) { return x !== null && x !== undefined ? x : y() }", ""},
+	{"export function f(x, y) { if (x == null) return y; else return x }", ""},
+	{"export function f(x) { x != null && x.b(); x == null || x.c.d() }", ""},
+	{"export function f(x, y) { var t = x; return t === null || t === void 0 ? void 0 : t.p.q }", ""},
+	{"export function f(x, y) { x == null && (x = y); x || (x = y); x && (x = y); return x }", ""},
+	{"export function f(x, y) { if (x == null) x = y; if (!x) x = y; x = x || y; x = x != null ? x : y; return x }", ""},
+	{"export function f(o, y) { o.p == null && (o.p = y); o.q = o.q || y; return o }", ""},
+	{"export function f(a, b) { return Math.pow(a, b) + a * a * a }", ""},
+	{"export function f(a, b) { return 'x' + a + 'y' + b + 'z' }", ""},
+	{"export function f(a) { return function (b) { return a + b } }\nexport var g = function () { return 1 }", ""},
+	{"export function f(a) { try { return a() } catch (e) { return 0 } }", ""},
+	{"export function f(a) { try { a() } catch (e) {} }", ""},
+	{"export function f(a, b) { return Object.assign({}, a, { c: b }) }", ""},
+	{"export function f(a) { return typeof a === 'undefined' ? 1 : typeof a == 'object' ? 2 : 3 }", ""},
+	{"export function f(a, b) { var o = { a: a, b: b, 'c': function () { return 1 } }; return o }", ""},
+	{"export function f(a) { return a === void 0 ? 1 : a }\nexport function g(a) { return a === undefined || a === null }", ""},
+	{"export function f(a) { return 1000000 * a + 1e21 + 0.0000001 }", ""},
+	{"export function f(a, b) { return [a].concat(b), f.apply(null, b) }", ""},
+	{"export function f(p) { return new Promise(function (r) { r(p) }).then(function (v) { return v }) }", ""},
+	{"export function f(x) { return x && x.a && x.a.b && x.a.b.c }", ""},
+	{"export function f(x) { return x ? x.a : undefined }\nexport function g(x) { return x ? x : 0 }", ""},
+	{"export enum E { A = 1, B = A * 2 }\nexport namespace N { export var x = 1 }\nnamespace N { export var y = x }", "ts"},
+	{"enum E { A }\nenum E { B = 2 }\nexport function f(e: E, d?: number) { return d != null ? d : e }", "ts"},
+	{"export class C { constructor(public a: number, private b = a) {} m(x?: C) { return x != null ? x.a : undefined } }", "ts"},
+}
+
 // wrappers (statement level, with a HOLE for an expression) and expression
 // fragments (with holes for sub-expressions): combinations put each feature in
 // many syntactic positions
@@ -384,7 +417,7 @@ func glue(r *Rng, st *Stats, cf *CoqFile, n int, tier string) {
 	os.WriteFile(dir+"/other.js", []byte("export var o = 1\nexport default 2\n"), 0o644)
 	os.WriteFile(dir+"/other.json", []byte("{\"a\": 1}\n"), 0o644)
 
-	var specItems, lowerItems []string
+	var specItems, lowerItems, introItems []string
 	dump := os.Getenv("C14_DUMP") != ""
 	realOnly := func(xs []string) []string {
 		var out []string
@@ -483,6 +516,15 @@ func glue(r *Rng, st *Stats, cf *CoqFile, n int, tier string) {
 		}
 		v := checkOutput(st, kind, src, c, res)
 		lowerCase(kind, c, p, res, v.detected)
+		if (kind == "introduced-syntax" || kind == "minify-bait") && c.Loader == "" && c.contradiction() == "" {
+			var ul []string
+			for _, f := range namesOf(c.goOptions().UnsupportedJSFeatures) {
+				if f != "InlineScript" {
+					ul = append(ul, f)
+				}
+			}
+			introItems = append(introItems, fmt.Sprintf("(%s, %s, %s)", coqFeatList(ul), coqFeatList(realOnly(Detect(src))), coqFeatList(realOnly(v.detected))))
+		}
 		if dump {
 			fmt.Printf("DUMP %s %s [%s] ok detected=%v warnings=%d\n", kind, nameOf(p), jsonStr(c), v.detected, len(res.warnings))
 		}
@@ -591,6 +633,43 @@ func glue(r *Rng, st *Stats, cf *CoqFile, n int, tier string) {
 		}
 		runOne("minify-bait-random", b, false, c, nil)
 	}
+	// (d') syntax INTRODUCED by esbuild's own rewrites: inputs written in old syntax (locals, so
+	// that reads are side-effect free) whose minified or generated form may use a newer
+	// operator, under every configuration that takes ONE candidate feature away while its
+	// siblings stay: single supported:false overrides, and the real engine rows that split
+	// ES2020/ES2021 (?? from node14.0/chrome80/firefox72 but ?. from node16.9/chrome91/firefox74,
+	// ||= from node15/chrome85/firefox79, ...)
+	var splits []*cfg
+	for _, f := range []string{"OptionalChain", "NullishCoalescing", "LogicalAssignment", "OptionalCatchBinding", "TemplateLiteral", "Arrow",
+		"ExponentOperator", "ObjectRestSpread", "AsyncAwait", "Bigint", "ClassField", "ClassStaticBlocks", "UnicodeEscapes"} {
+		c := &cfg{Supported: map[string]bool{keyByName[f]: false}}
+		c.setTarget("esnext")
+		splits = append(splits, c)
+	}
+	for _, ev := range [][2]string{{"node", "14"}, {"node", "14.5"}, {"node", "15"}, {"node", "16.8"}, {"chrome", "80"}, {"chrome", "84"}, {"chrome", "85"},
+		{"chrome", "90"}, {"edge", "80"}, {"edge", "90"}, {"firefox", "72"}, {"firefox", "73"}, {"firefox", "78"}, {"opera", "67"}, {"opera", "76"},
+		{"safari", "13"}, {"safari", "13.1"}, {"ios", "13.4"}, {"deno", "1"}} {
+		c := &cfg{}
+		c.setTarget("esnext")
+		c.target, c.Target = api.DefaultTarget, "default"
+		for en, label := range engineLabels {
+			if label == ev[0] {
+				c.addEngine(en, label, ev[1])
+			}
+		}
+		splits = append(splits, c)
+	}
+	for bi, b := range oldSyntaxBaits {
+		for si, s := range splits {
+			c := *s
+			c.Minify = true
+			c.Loader = b.loader
+			if (bi+si)%4 == 0 {
+				c.Bundle, c.Format = true, formats[1+(bi+si)%3]
+			}
+			runOne("introduced-syntax", b.src, false, &c, nil)
+		}
+	}
 	// (e) nested combinations
 	for i := 0; i < count; i++ {
 		src := genCombo(r)
@@ -615,6 +694,7 @@ func glue(r *Rng, st *Stats, cf *CoqFile, n int, tier string) {
 	}
 	cf.AddCases("spec_cases", "Z * list feature * list feature", "check_spec_leaks", specItems)
 	cf.AddCases("lower_cases", "list feature * list feature * bool * list feature", "check_lower", lowerItems)
+	cf.AddCases("intro_cases", "list feature * list feature * list feature", "check_intro", introItems)
 }
 
 func nameOf(p *probe) string {
